@@ -58,8 +58,25 @@ theorem step_snap (m : Mode) (s : State) (p : Pid) (op : Op) (rest : List Op)
 
 theorem step_read (m : Mode) (s : State) (p : Pid) (op : Op) (rest : List Op)
     (h : (s.procs p).ops = op :: rest) (hph : (s.procs p).ph = .read) :
-    step m s p = { s with procs := upd s.procs p { s.procs p with loc := s.cell op.key, ph := .write } } := by
+    step m s p = { s with procs := upd s.procs p { s.procs p with loc := s.cell op.key, ph := nextPh m op .read } } := by
   simp [step, h, hph]
+
+theorem step_build (m : Mode) (s : State) (p : Pid) (op : Op) (rest : List Op)
+    (h : (s.procs p).ops = op :: rest) (hph : (s.procs p).ph = .build) :
+    step m s p = { s with procs := upd s.procs p { s.procs p with ph := nextPh m op .build } } := by
+  simp [step, h, hph]
+
+@[simp] theorem lockLate_full (op : Op) : Mode.lockLate .full op = false := rfl
+@[simp] theorem lockLate_none (op : Op) : Mode.lockLate .none op = false := rfl
+@[simp] theorem lockLate_append (op : Op) : Mode.lockLate .append op = false := rfl
+@[simp] theorem ckptEarly_full : Mode.ckptEarly .full = true := rfl
+
+/-- under `full` the phase after `read` / `build` is `build` / `write`: never `acq`, `snap`, `read` -/
+theorem nextPh_full_read (op : Op) : nextPh .full op .read = .build ∨ nextPh .full op .read = .write := by
+  cases op <;> simp [nextPh, afterBuild, Mode.lockLate, Op.isBatch]
+
+theorem nextPh_full_build (op : Op) : nextPh .full op .build = .write := by
+  simp [nextPh, afterBuild, Mode.lockLate]
 
 theorem step_write (m : Mode) (s : State) (p : Pid) (op : Op) (rest : List Op)
     (h : (s.procs p).ops = op :: rest) (hph : (s.procs p).ph = .write) :
@@ -110,10 +127,11 @@ structure Inv (c₀ : Path → Val) (s : State) : Prop where
   owner : ∀ k p, s.lock k = some p → ∃ op rest, (s.procs p).ops = op :: rest ∧ op.key = k ∧ (s.procs p).ph ≠ .acq
   /-- the snapshot of a checkpoint in progress is the current content of the journal … -/
   snapEq : ∀ p op rest, (s.procs p).ops = op :: rest → op.isCkpt = true →
-    ((s.procs p).ph = .read ∨ (s.procs p).ph = .write) →
+    ((s.procs p).ph = .read ∨ (s.procs p).ph = .build ∨ (s.procs p).ph = .write) →
     (s.procs p).snap = s.cell op.key ∧ op.noEffect (s.cell op.key) = false
   /-- … and so is the local copy of every update about to write -/
-  locEq : ∀ p op rest, (s.procs p).ops = op :: rest → (s.procs p).ph = .write → (s.procs p).loc = s.cell op.key
+  locEq : ∀ p op rest, (s.procs p).ops = op :: rest → ((s.procs p).ph = .build ∨ (s.procs p).ph = .write) →
+    (s.procs p).loc = s.cell op.key
   /-- every cell holds what the completed updates produce when run alone, one after the other -/
   ser : ∀ k, s.cell k = seqRun (c₀ k) (s.done k)
   /-- completions follow acquisitions; the only acquisition not yet completed is the holder's -/
@@ -127,10 +145,10 @@ theorem inv_init (c₀ : Path → Val) (P₀ : Pid → List Op) : Inv c₀ (init
     simp [init] at h
   · intro p op rest _ _ hph
     have : ((init .full c₀ P₀).procs p).ph = .acq := startProc_full_ph _ _ _
-    rcases hph with h | h <;> rw [this] at h <;> cases h
+    rcases hph with h | h | h <;> rw [this] at h <;> cases h
   · intro p op rest _ hph
     have : ((init .full c₀ P₀).procs p).ph = .acq := startProc_full_ph _ _ _
-    rw [this] at hph; cases hph
+    rcases hph with h | h <;> rw [this] at h <;> cases h
   · intro k; simp [init, seqRun]
   · intro k; simp [init, holderEntry]
 
@@ -191,10 +209,10 @@ theorem inv_finish {c₀ s} (I : Inv c₀ s) (p : Pid) (op : Op) (rest : List Op
     · subst hqp
       simp [finish] at hqph
       rw [hpacq] at hqph
-      rcases hqph with e | e <;> cases e
+      rcases hqph with e | e | e <;> cases e
     · simp [finish, hqp] at hq hqph ⊢
       have hne : (s.procs q).ph ≠ .acq := by
-        rcases hqph with e | e <;> rw [e] <;> decide
+        rcases hqph with e | e | e <;> rw [e] <;> decide
       have hk := other q op' rest' hqp hq hne
       rw [upd_ne _ _ hk]
       exact I.snapEq q op' rest' hq hck hqph
@@ -203,9 +221,10 @@ theorem inv_finish {c₀ s} (I : Inv c₀ s) (p : Pid) (op : Op) (rest : List Op
     · subst hqp
       simp [finish] at hqph
       rw [hpacq] at hqph
-      cases hqph
+      rcases hqph with e | e <;> cases e
     · simp [finish, hqp] at hq hqph ⊢
-      have hne : (s.procs q).ph ≠ .acq := by rw [hqph]; decide
+      have hne : (s.procs q).ph ≠ .acq := by
+        rcases hqph with e | e <;> rw [e] <;> decide
       have hk := other q op' rest' hqp hq hne
       rw [upd_ne _ _ hk]
       exact I.locEq q op' rest' hq hqph
@@ -395,7 +414,11 @@ theorem inv_step {c₀ s} (I : Inv c₀ s) (p : Pid) : Inv c₀ (step .full s p)
         obtain ⟨op', rest', h1, h2, h3⟩ := I.owner k q hk
         by_cases hqp : q = p
         · subst hqp
-          exact ⟨op', rest', by simpa using h1, h2, by simp⟩
+          have hop : op' = op := by rw [hops] at h1; cases h1; rfl
+          subst hop
+          refine ⟨op', rest', by simpa using h1, h2, ?_⟩
+          simp only [upd_same]
+          rcases nextPh_full_read op' with e | e <;> rw [e] <;> decide
         · exact ⟨op', rest', by simpa [hqp] using h1, h2, by simpa [hqp] using h3⟩
       · intro q op' rest' hq hck hqph
         by_cases hqp : q = p
@@ -428,14 +451,66 @@ theorem inv_step {c₀ s} (I : Inv c₀ s) (p : Pid) : Inv c₀ (step .full s p)
           by_cases hqp : q = p
           · subst hqp; simp [hops]
           · simp [upd_ne _ _ hqp]
+    | build =>
+      have hne : (s.procs p).ph ≠ .acq := by rw [hph]; decide
+      rw [step_build _ _ _ op rest hops hph, nextPh_full_build]
+      have hl := I.holder p op rest hops hne
+      refine ⟨?_, ?_, ?_, ?_, ?_, ?_⟩
+      · intro q op' rest' hq hqph
+        by_cases hqp : q = p
+        · subst hqp
+          simp at hq
+          rw [hops] at hq
+          have : op' = op := by cases hq; rfl
+          subst this
+          exact hl
+        · simp [hqp] at hq hqph
+          exact I.holder q op' rest' hq hqph
+      · intro k q hk
+        obtain ⟨op', rest', h1, h2, h3⟩ := I.owner k q hk
+        by_cases hqp : q = p
+        · subst hqp
+          exact ⟨op', rest', by simpa using h1, h2, by simp⟩
+        · exact ⟨op', rest', by simpa [hqp] using h1, h2, by simpa [hqp] using h3⟩
+      · intro q op' rest' hq hck hqph
+        by_cases hqp : q = p
+        · subst hqp
+          simp at hq
+          rw [hops] at hq
+          have : op' = op := by cases hq; rfl
+          subst this
+          simpa using I.snapEq q op' rest hops hck (Or.inr (Or.inl hph))
+        · simp [hqp] at hq hqph ⊢
+          exact I.snapEq q op' rest' hq hck hqph
+      · intro q op' rest' hq hqph
+        by_cases hqp : q = p
+        · subst hqp
+          simp at hq
+          rw [hops] at hq
+          have : op' = op := by cases hq; rfl
+          subst this
+          simpa using I.locEq q op' rest hops (Or.inl hph)
+        · simp [hqp] at hq hqph ⊢
+          exact I.locEq q op' rest' hq hqph
+      · intro k; exact I.ser k
+      · intro k
+        have h0 := I.acqDone k
+        simp only [holderEntry] at h0 ⊢
+        rw [h0]
+        cases hlk : s.lock k with
+        | none => rfl
+        | some q =>
+          by_cases hqp : q = p
+          · subst hqp; simp [hops]
+          · simp [upd_ne _ _ hqp]
     | write =>
       have hne : (s.procs p).ph ≠ .acq := by rw [hph]; decide
       rw [step_write _ _ _ op rest hops hph]
-      have hloc := I.locEq p op rest hops hph
+      have hloc := I.locEq p op rest hops (Or.inr hph)
       have hw : op.write (s.procs p).snap (s.procs p).loc (s.cell op.key) = op.seq (s.cell op.key) := by
         cases hck : op.isCkpt with
         | true =>
-          have := I.snapEq p op rest hops hck (Or.inr hph)
+          have := I.snapEq p op rest hops hck (Or.inr (Or.inr hph))
           exact write_eq_seq op _ _ _ (fun _ => this.1) hloc this.2
         | false =>
           exact write_eq_seq op _ _ _ (fun h => by rw [hck] at h; cases h) hloc (noEffect_nonckpt op _ hck)
@@ -524,6 +599,7 @@ theorem acct_step {P₀ s} (A : Acct P₀ s) (m : Mode) (p : Pid) : Acct P₀ (s
       | true => rw [step_snap_noop _ _ _ op rest hops hph hn]; exact acct_finish A m p op rest _ hops
       | false => rw [step_snap _ _ _ op rest hops hph hn]; exact acct_same A rfl (same _ rfl)
     | read => rw [step_read _ _ _ op rest hops hph]; exact acct_same A rfl (same _ rfl)
+    | build => rw [step_build _ _ _ op rest hops hph]; exact acct_same A rfl (same _ rfl)
     | write => rw [step_write _ _ _ op rest hops hph]; exact acct_finish A m p op rest _ hops
 
 theorem acct_run {P₀ s} (A : Acct P₀ s) (m : Mode) (sched : List Pid) : Acct P₀ (run m s sched) := by
@@ -560,7 +636,8 @@ def localStep (m : Mode) (p : Pid) (op : Op) (rest : List Op) (l : Loc) : Loc :=
     | none => { l with lock := some p, acqd := l.acqd ++ [(p, op)], proc := { l.proc with ph := nextPh m op .acq } }
   | .snap => if op.noEffect l.cell then fin l.cell
              else { l with proc := { l.proc with snap := l.cell, ph := nextPh m op .snap } }
-  | .read => { l with proc := { l.proc with loc := l.cell, ph := .write } }
+  | .read => { l with proc := { l.proc with loc := l.cell, ph := nextPh m op .read } }
+  | .build => { l with proc := { l.proc with ph := nextPh m op .build } }
   | .write => fin (op.write l.proc.snap l.proc.loc l.cell)
 
 theorem step_local (m : Mode) (s : State) (p : Pid) (op : Op) (rest : List Op)
@@ -591,6 +668,9 @@ theorem step_local (m : Mode) (s : State) (p : Pid) (op : Op) (rest : List Op)
       simp [localStep, getLoc, putLoc, hph, hn, upd_self]
   | read =>
     rw [step_read _ _ _ op rest h hph]
+    simp [localStep, getLoc, putLoc, hph, upd_self]
+  | build =>
+    rw [step_build _ _ _ op rest h hph]
     simp [localStep, getLoc, putLoc, hph, upd_self]
   | write =>
     rw [step_write _ _ _ op rest h hph]
@@ -836,5 +916,117 @@ theorem seq_rlog (l : List Nat) (ops : List (Pid × Op)) (h : ∀ x ∈ ops, x.2
       rw [hs, ih _ hrest (List.length_take_le _ _)]
       simp only [List.map_cons, List.reverse_cons, Op.ev, List.append_assoc, List.singleton_append]
       exact take_append_take _ _ _
+
+/-! ### the `tbl` discipline whose table has every lock before the read IS the `full` discipline -/
+
+theorem pos_ok {t : LockTable} (h : t.ok) (op : Op) : t.pos op = .beforeRead := by
+  cases op <;> simp [LockTable.pos, h.1, h.2]
+
+theorem lockLate_tbl_ok {t : LockTable} (h : t.ok) (op : Op) : Mode.lockLate (.tbl t) op = false := by
+  simp [Mode.lockLate, pos_ok h]
+
+theorem firstPh_tbl_ok {t : LockTable} (h : t.ok) (op : Op) : firstPh (.tbl t) op = firstPh .full op := by
+  simp [firstPh, pos_ok h]
+
+theorem nextPh_tbl_ok {t : LockTable} (h : t.ok) (op : Op) (ph : Phase) :
+    nextPh (.tbl t) op ph = nextPh .full op ph := by
+  have e1 : (Mode.tbl t == Mode.append) = false := by
+    cases hd : (Mode.tbl t == Mode.append) with
+    | false => rfl
+    | true => exact absurd (eq_of_beq hd) (by intro e; cases e)
+  have e2 : (Mode.full == Mode.append) = false := by decide
+  cases ph <;> simp [nextPh, afterBuild, lockLate_tbl_ok h, Mode.ckptEarly, e1, e2]
+
+theorem startProc_tbl_ok {t : LockTable} (h : t.ok) (ops : List Op) (a b : Val) :
+    startProc (.tbl t) ops a b = startProc .full ops a b := by
+  cases ops <;> simp [startProc, firstPh_tbl_ok h]
+
+theorem finish_tbl_ok {t : LockTable} (h : t.ok) (s : State) (p : Pid) (pr : Proc) (op : Op) (rest : List Op)
+    (cell : Path → Val) : finish (.tbl t) s p pr op rest cell = finish .full s p pr op rest cell := by
+  simp [finish, startProc_tbl_ok h]
+
+theorem step_tbl_ok {t : LockTable} (h : t.ok) (s : State) (p : Pid) : step (.tbl t) s p = step .full s p := by
+  cases hops : (s.procs p).ops with
+  | nil => rw [step_idle _ _ _ hops, step_idle _ _ _ hops]
+  | cons op rest =>
+    cases hph : (s.procs p).ph with
+    | acq =>
+      cases hl : s.lock op.key with
+      | some q => rw [step_blocked _ _ _ q op rest hops hph hl, step_blocked _ _ _ q op rest hops hph hl]
+      | none => rw [step_acq _ _ _ op rest hops hph hl, step_acq _ _ _ op rest hops hph hl, nextPh_tbl_ok h]
+    | snap =>
+      cases hn : op.noEffect (s.cell op.key) with
+      | true => rw [step_snap_noop _ _ _ op rest hops hph hn, step_snap_noop _ _ _ op rest hops hph hn, finish_tbl_ok h]
+      | false => rw [step_snap _ _ _ op rest hops hph hn, step_snap _ _ _ op rest hops hph hn, nextPh_tbl_ok h]
+    | read => rw [step_read _ _ _ op rest hops hph, step_read _ _ _ op rest hops hph, nextPh_tbl_ok h]
+    | build => rw [step_build _ _ _ op rest hops hph, step_build _ _ _ op rest hops hph, nextPh_tbl_ok h]
+    | write => rw [step_write _ _ _ op rest hops hph, step_write _ _ _ op rest hops hph, finish_tbl_ok h]
+
+theorem run_tbl_ok {t : LockTable} (h : t.ok) (s : State) (sched : List Pid) :
+    run (.tbl t) s sched = run .full s sched := by
+  induction sched generalizing s with
+  | nil => rfl
+  | cons p rest ih =>
+    show run (.tbl t) (step (.tbl t) s p) rest = run .full (step .full s p) rest
+    rw [step_tbl_ok h, ih]
+
+theorem init_tbl_ok {t : LockTable} (h : t.ok) (c₀ : Path → Val) (P₀ : Pid → List Op) :
+    init (.tbl t) c₀ P₀ = init .full c₀ P₀ := by
+  simp [init, startProc_tbl_ok h]
+
+/-! ### from the extracted statement order to the table -/
+
+theorem pos_of_lockReadWrite (w : NotesWriter) (h : w.lockReadWrite = true) : w.pos = .beforeRead := by
+  simp only [NotesWriter.lockReadWrite, Bool.and_eq_true, decide_eq_true_eq] at h
+  obtain ⟨⟨⟨hh, h1⟩, h2⟩, h3⟩ := h
+  have hn : ¬ w.events.length ≤ idxOf .lock w.events := by omega
+  have hw : idxOf .lock w.events < idxOf .write w.events := by omega
+  simp [NotesWriter.pos, hh, hn, h1, hw]
+
+theorem foldl_meet_ok (l : List NotesWriter) (h : ∀ w ∈ l, w.pos = .beforeRead) :
+    l.foldl (fun (a : LockPos) w => a.meet w.pos) LockPos.beforeRead = LockPos.beforeRead := by
+  induction l with
+  | nil => rfl
+  | cons w l ih =>
+    simp only [List.foldl_cons]
+    rw [h w (by simp)]
+    exact ih (fun x hx => h x (by simp [hx]))
+
+theorem classPos_ok (ws : List NotesWriter) (c : WClass) (h : ∀ w ∈ ws, w.lockReadWrite = true) :
+    classPos ws c = .beforeRead := by
+  apply foldl_meet_ok
+  intro w hw
+  exact pos_of_lockReadWrite w (h w (List.mem_filter.mp hw).1)
+
+/-- every notes writer takes the lock before it reads and reads before it writes ⟹ the table is `ok` -/
+theorem tableOf_ok (ws : List NotesWriter) (h : ∀ w ∈ ws, w.lockReadWrite = true) : (tableOf ws).ok :=
+  ⟨classPos_ok ws .blind h, classPos_ok ws .cas h⟩
+
+/-! ### a note written by exactly one writer is that writer's -/
+
+theorem find?_unique {l : List (Nat × Nat)} {c n : Nat} (hm : (c, n) ∈ l)
+    (hu : ∀ x ∈ l, x.1 = c → x = (c, n)) : l.find? (fun p => p.1 == c) = some (c, n) := by
+  induction l with
+  | nil => cases hm
+  | cons x l ih =>
+    by_cases hx : x.1 = c
+    · have := hu x (by simp) hx
+      subst this
+      simp
+    · have hb : (x.1 == c) = false := by simp [hx]
+      rw [List.find?_cons, hb]
+      apply ih
+      · rcases List.mem_cons.mp hm with e | e
+        · subst e; exact absurd rfl hx
+        · exact e
+      · intro y hy; exact hu y (by simp [hy])
+
+theorem find?_isSome_of_mem {l : List (Nat × Nat)} {c n : Nat} (hm : (c, n) ∈ l) :
+    ∃ n', (l.find? (fun p => p.1 == c)).map (·.2) = some n' := by
+  cases hf : l.find? (fun p => p.1 == c) with
+  | some p => exact ⟨p.2, rfl⟩
+  | none =>
+    have := List.find?_eq_none.mp hf (c, n) hm
+    simp at this
 
 end GitAi.Conc
